@@ -196,6 +196,7 @@ def prepare(tier):
 
 
 def worker(shard, part):
+    gcheck.BRUTE_LIMIT = _BRUTE[0]
     lo, hi, plo, phi = shard
     for case in _CASES[lo:hi]:
         run_case(part, case, None if plo is None else (plo, phi))
@@ -227,7 +228,11 @@ def make_shards(cases, target):
     return shards
 
 
+_BRUTE = [300]
+
+
 def main(tier, seed, only=None):
+    _BRUTE[0] = 300 if tier == "quick" else 5000
     cases = prepare(tier)
     run = harness.Run(
         PID,
